@@ -116,8 +116,9 @@ type usagePair struct {
 
 // updateUsageQueue zeroes the accumulated usage all ActiveUsers valve and put the usage data im usageUpdateQueue
 func (panel *userPanel) updateUsageQueue() {
-	panel.activeUsersM.Lock()
+	// usageUpdateQueueM is always taken before activeUsersM (same order as commitUpdate)
 	panel.usageUpdateQueueM.Lock()
+	panel.activeUsersM.Lock()
 	for _, user := range panel.activeUsers {
 		if user.bypass {
 			continue
